@@ -233,43 +233,48 @@ def _type_worker(args):
     if idx >= len(seeds):
         return acc.result()
     nvar = 0
-    with core.watchdog(1500):
-        vi = -1
-        for path, o, stats in objects.neighbourhood(seeds[idx], 1, False, 240):
-            vi += 1
-            if vi % nchunks != chunk:
-                continue
-            try:
-                c = bytes(o.compose())
-                base = cls.parse_exact_size(c)
-                text = c.decode('ascii')
-            except Exception:  # noqa (C01)
-                continue
-            d0 = canon.dump(base, eq=True)
-            acc.state(core.h64(qn, c))
-            n_here = 0
-            for combo, v in variants_of(text, sep, fixed, rows, max_rows):
-                n_here += 1
-                if n_here > cap:
-                    acc.count('capped_values')
-                    break
-                acc.counters['transitions'] = acc.counters.get('transitions', 0) + 1
-                w = {'kind': 'spelling', 'cls': qn, 'canonical': text, 'variant': v, 'rows': list(combo)}
-                try:
-                    got = cls.parse_exact_size(v.encode('ascii'))
-                except Exception as e:  # noqa
-                    rows_ = attribution.rows_for(combo, ('rejected', core.ename(e)))
-                    acc.violation('spelling:%s:%s:rejected:%s' % (cname, '+'.join(rows_), core.ename(e)),
-                                  '%s spelling %r of %r is rejected (%s)' % (cname, v, text, core.ename(e)), w)
+    try:
+        with core.watchdog(1500):
+            vi = -1
+            for path, o, stats in objects.neighbourhood(seeds[idx], 1, False, 240):
+                vi += 1
+                if vi % nchunks != chunk:
                     continue
-                d1 = canon.dump(got, eq=True)
-                if d1 != d0:
-                    leaf = canon.generic_path_leaf(d0, d1)
-                    rows_ = attribution.rows_for(combo, ('differs', leaf))
-                    acc.violation('spelling:%s:%s:differs:%s' % (cname, '+'.join(rows_), leaf),
-                                  '%s spelling %r parses differently from %r (at %s)'
-                                  % (cname, v, text, canon.first_diff(d0, d1)), w)
-            nvar += n_here
+                try:
+                    c = bytes(o.compose())
+                    base = cls.parse_exact_size(c)
+                    text = c.decode('ascii')
+                except Exception:  # noqa (C01)
+                    continue
+                d0 = canon.dump(base, eq=True)
+                acc.state(core.h64(qn, c))
+                n_here = 0
+                for combo, v in variants_of(text, sep, fixed, rows, max_rows):
+                    n_here += 1
+                    if n_here > cap:
+                        acc.count('capped_values')
+                        break
+                    acc.counters['transitions'] = acc.counters.get('transitions', 0) + 1
+                    w = {'kind': 'spelling', 'cls': qn, 'canonical': text, 'variant': v, 'rows': list(combo)}
+                    try:
+                        got = cls.parse_exact_size(v.encode('ascii'))
+                    except Exception as e:  # noqa
+                        rows_ = attribution.rows_for(combo, ('rejected', core.ename(e)))
+                        acc.violation('spelling:%s:%s:rejected:%s' % (cname, '+'.join(rows_), core.ename(e)),
+                                      '%s spelling %r of %r is rejected (%s)' % (cname, v, text, core.ename(e)), w)
+                        continue
+                    d1 = canon.dump(got, eq=True)
+                    if d1 != d0:
+                        leaf = canon.generic_path_leaf(d0, d1)
+                        rows_ = attribution.rows_for(combo, ('differs', leaf))
+                        acc.violation('spelling:%s:%s:differs:%s' % (cname, '+'.join(rows_), leaf),
+                                      '%s spelling %r parses differently from %r (at %s)'
+                                      % (cname, v, text, canon.first_diff(d0, d1)), w)
+                nvar += n_here
+    except core.Timeout:
+        # a budget of this harness, not a clause of the property: the item is reported as cut, the run as capped
+        acc.count('work_items_cut_by_watchdog')
+        acc.sample({'cut_by_watchdog': qn, 'seed': idx, 'chunk': chunk, 'seconds': 1500}, 3)
     if idx == 0 and chunk == 0:
         acc.sample({'kind': 'spelling', 'cls': qn, 'rows': list(rows), 'clause': clause}, 1)
     return acc.result()
@@ -514,6 +519,9 @@ def run(ctx):
     ctx.pmap(_nel_worker, [0], nproc=1)
     ctx.pmap(_block_worker, [0], nproc=1)
     histories(ctx, 6 if ctx.quick else 40, 12 if ctx.quick else 60)
+    if ctx.counters.get('work_items_cut_by_watchdog'):
+        ctx.cap('%d work items cut by their watchdog (1500 s); what they explored until then is counted'
+                % ctx.counters['work_items_cut_by_watchdog'])
     if ctx.counters.get('capped_values'):
         ctx.cap('per-value variant cap %d hit for %d values' % (cap, ctx.counters['capped_values']))
     ctx.notes['variation_rows'] = {t[0]: {'rows': list(t[3]), 'clause': t[4]} for t in TYPES}
